@@ -148,11 +148,26 @@ pub struct DbCfg {
 	/// files reclaimed while clients are still committing
 	#[serde(default)]
 	pub always_flush: bool,
+	/// the library's defaults, which the other fields of this struct override: `salt: None`
+	/// (every open after the creation takes the salt from the metadata file; the creation itself
+	/// still uses the fixed salt so that a run stays a pure function of the seed) ...
+	#[serde(default)]
+	pub salt_from_meta: bool,
+	/// ... and `stats: true` (statistics collected on every query / write, stored in the index
+	/// file's header area and in stats.txt when the handle is dropped)
+	#[serde(default)]
+	pub stats: bool,
 }
 
 impl DbCfg {
 	pub fn new(cols: Vec<ColCfg>) -> DbCfg {
-		DbCfg { cols, zero_salt: false, sync_wal: true, sync_data: true, always_flush: false }
+		DbCfg { cols, zero_salt: false, sync_wal: true, sync_data: true, always_flush: false, salt_from_meta: false, stats: false }
+	}
+	/// bit 0: salt from the metadata file, bit 1: statistics on
+	pub fn flags(mut self, bits: u8) -> DbCfg {
+		self.salt_from_meta = bits & 1 != 0;
+		self.stats = bits & 2 != 0;
+		self
 	}
 	pub fn options(&self, path: &Path, background: bool) -> Options {
 		let mut o = Options::with_columns(path, self.cols.len() as u8);
@@ -164,8 +179,8 @@ impl DbCfg {
 		}
 		o.sync_wal = self.sync_wal;
 		o.sync_data = self.sync_data;
-		o.stats = false;
-		o.salt = Some(if self.zero_salt { [0u8; 32] } else { FIXED_SALT });
+		o.stats = self.stats;
+		o.salt = if self.salt_from_meta && path.join("metadata").exists() { None } else { Some(if self.zero_salt { [0u8; 32] } else { FIXED_SALT }) };
 		o.with_background_thread = background;
 		o.always_flush = self.always_flush;
 		o
